@@ -23,7 +23,8 @@ class Check(ReportCheck):
     rule = ('the running orders and reached states of the C15 generator: paragraphs that are empty, whitespace-only (ASCII, '
             'U+00A0, U+2003), bracketed, half-bracketed, nested or mixed brackets, Unicode, interleaved with items and other '
             'elements, plus roStorySend bodies; script and body of every story and of the running order compared with the model '
-            'and with an independent transcription; the white-space table compared with str.isspace over all code points')
+            'and with an independent transcription; Story objects held across item-level merges and roStorySend must keep '
+            'reporting what their element holds; the white-space table compared with str.isspace over all code points')
 
     def oracle(self, text, rep, meta):
         if rep == 'norc' or 'script=E' in rep or 'stories=E' in rep:
